@@ -1,8 +1,10 @@
 package main
 
 import (
+	"bufio"
 	"bytes"
 	"fmt"
+	"os"
 	"strings"
 
 	"zombiezen.com/go/commonmark"
@@ -20,6 +22,7 @@ type docRec struct {
 	MD   string         `json:"md"`
 	HTML []string       `json:"html"`
 	Ch   map[string]any `json:"ch"`
+	Fmt  string         `json:"fmt"` // Doc.tla's formatter program: the exact text Format must produce (FmtMode only)
 }
 
 func renderRoots(src []byte) ([]string, string) {
@@ -123,6 +126,18 @@ func docCheckC20(res *Result, r *docRec) {
 		fail("format:meaning", "formatted text %q\n      renders %q\n      original renders %q", y, nonEmpty(got), nonEmpty(want))
 		return
 	}
+	// the formatter's style as Doc.tla models it (FmtText): the property does not fix the style, so a difference that keeps the
+	// meaning is model drift, not a verdict
+	if r.Fmt != "" {
+		if string(y) == r.Fmt {
+			res.Extra["format_output_equals_model"] = asInt(res.Extra["format_output_equals_model"]) + 1
+		} else {
+			res.Extra["format_output_differs_from_model"] = asInt(res.Extra["format_output_differs_from_model"]) + 1
+			if len(res.Drift) < 4 {
+				res.Drift = append(res.Drift, fmt.Sprintf("format style: %q is formatted as %q, Doc.tla's formatter program gives %q (same meaning)", src, y, r.Fmt))
+			}
+		}
+	}
 	z, pm := formatDoc(y)
 	if pm != "" {
 		fail("panic", "%s", pm)
@@ -131,6 +146,101 @@ func docCheckC20(res *Result, r *docRec) {
 	if !bytes.Equal(z, y) {
 		fail("format:fixpoint", "formatting is not a fixpoint: %q then %q", y, z)
 	}
+}
+
+func asInt(v any) int {
+	switch x := v.(type) {
+	case int:
+		return x
+	case float64:
+		return int(x)
+	}
+	return 0
+}
+
+// The meaning clause as a theorem of the two models (no code involved): Full.tla's Model, evaluated by TLC (FullTrace.tla) on the
+// text Doc.tla's formatter program produces and on the canonical serialization itself, must give the HTML Doc.tla denotes.
+//
+//	doc fmtgen <out.ndjson> <tlc outputs...>    records {id, src} for FullTrace.tla: odd ids = FmtText, even ids = Markdown
+//	doc fmtcheck <fulltrace output> <tlc outputs...>
+func docFmtRecords(paths []string, f func(id int, r *docRec)) {
+	id := 0
+	for _, p := range paths {
+		forEachTLCRecord(p, func(raw []byte) {
+			var r docRec
+			mustUnmarshal(raw, &r)
+			id++
+			f(id, &r)
+		})
+	}
+}
+
+func cmdDocFmt(args []string) *Result {
+	res := newResult()
+	switch args[0] {
+	case "fmtgen":
+		out, err := os.Create(args[1])
+		if err != nil {
+			die("%v", err)
+		}
+		defer out.Close()
+		w := bufio.NewWriter(out)
+		defer w.Flush()
+		n := 0
+		docFmtRecords(args[2:], func(id int, r *docRec) {
+			if r.Fmt != "" {
+				fmt.Fprintf(w, "{\"id\":%d,\"src\":%s}\n", 2*id+1, jsonString(ints([]byte(r.Fmt))))
+				n++
+			}
+			fmt.Fprintf(w, "{\"id\":%d,\"src\":%s}\n", 2*id, jsonString(ints([]byte(r.MD))))
+			n++
+		})
+		res.Extra["records"] = n
+	case "fmtcheck":
+		want := map[int][]string{}
+		src := map[int]string{}
+		docFmtRecords(args[2:], func(id int, r *docRec) {
+			if r.Fmt != "" {
+				want[2*id+1] = nonEmpty(r.HTML)
+				src[2*id+1] = r.Fmt
+			}
+			want[2*id] = nonEmpty(r.HTML)
+			src[2*id] = r.MD
+		})
+		agree := 0
+		var differ []string
+		forEachTLCRecord(args[1], func(raw []byte) {
+			var r struct {
+				ID   int     `json:"id"`
+				HTML [][]int `json:"html"`
+			}
+			mustUnmarshal(raw, &r)
+			var got []string
+			for _, h := range r.HTML {
+				if len(h) > 0 {
+					got = append(got, normEdge(string(bytesOf(h))))
+				}
+			}
+			var w []string
+			for _, h := range want[r.ID] {
+				w = append(w, normEdge(h))
+			}
+			res.Evaluations++
+			if fmt.Sprintf("%q", got) == fmt.Sprintf("%q", w) {
+				agree++
+			} else if len(differ) < 6 {
+				kind := "canonical serialization"
+				if r.ID%2 == 1 {
+					kind = "formatter program output"
+				}
+				differ = append(differ, fmt.Sprintf("%s %q: Full.tla gives %q, Doc.tla denotes %q", kind, src[r.ID], got, w))
+			}
+		})
+		res.Extra["model_theorem_agree"] = agree
+		res.Extra["model_theorem_differ"] = differ
+		res.Extra["model_theorem_expected"] = len(want)
+	}
+	return res
 }
 
 func nonEmpty(xs []string) []string {
@@ -155,6 +265,9 @@ func cmdDoc(args []string) *Result {
 			docCheckC06(res, &r)
 		}
 		return res
+	}
+	if len(args) >= 3 && (args[0] == "fmtgen" || args[0] == "fmtcheck") {
+		return cmdDocFmt(args)
 	}
 	if len(args) < 2 {
 		die("usage: doc c06|c20 <tlc outputs...>")
